@@ -57,6 +57,11 @@ def build(cfg):
         # grid point k carries no bar: its quotes are stamped one second EARLIER, so the last event of that step is
         # stamped before the timestep (the environment's notifications must carry the event's time, not the timestep's)
         bars = [EventNBBO(e.time - timedelta(seconds=1), e.contract, e.bid_price, e.ask_price) if e.time == G[k] else e for e in bars]
+    k2 = cfg.get("latentonly")
+    if k2 and L:
+        # grid point k2 carries no bar of its own: its quotes are stamped INSIDE the latency window of the preceding timestep, so
+        # the only events it owns are latent ones (they are due before the execution of that step, and replayed like any other)
+        bars = [EventNBBO(G[k2 - 1] + timedelta(seconds=L / 2.0), e.contract, e.bid_price, e.ask_price) if e.time == G[k2] else e for e in bars]
     pos = positions(G, L)
     extras = []
     for j, (pi, kind) in enumerate(cfg["extras"]):
@@ -305,7 +310,7 @@ def run_config(cfg):
 
 CROSSED = [("L", [0, 30, 0.1]), ("fold", ["whole", "late", "middle", "endmid", "startmid", "bothmid", "single"]), ("hist", ["all", "markov", "warm1", "warm2"])]
 DEVIATE = [("grid", ["min", "day", "mixed", "min12", "month"]), ("ncon", [2, 1]), ("eplen", [None, 1, 2]), ("start", [0, 1, 2]),
-           ("unsorted", [False, True]), ("extras_first", [False, True]), ("swap_extras", [False, True]), ("dropbar", [0, 1, 2])]
+           ("unsorted", [False, True]), ("extras_first", [False, True]), ("swap_extras", [False, True]), ("dropbar", [0, 1, 2]), ("latentonly", [0, 1, 2])]
 
 
 def configs(tier):
@@ -317,6 +322,10 @@ def configs(tier):
         base = dict(zip([n for n, _ in CROSSED], crossed))
         for cost, dev in deviations(DEVIATE, bound):
             if dev["start"] != 0 and dev["eplen"] is None:
+                continue
+            if dev["latentonly"] and not (base["L"] and base["fold"] == "late" and dev["eplen"] is None and dev["grid"] == "min"):
+                # a timestep owning only latent events must lie at or before the episode's FIRST timestep (it is then replayed, never
+                # stepped through): stepping through it would leave two executions with the same time, which the track record refuses
                 continue
             left = min(max_extras, bound - cost)
             for ms in multisets(items, left):
